@@ -430,7 +430,7 @@ def binding(ctx, exe):
         "the machines are built by a seeded random legal order of the definition calls (p.defs); illegal orders (route to a "
         "missing non-terminal target, attachments to a missing state) are not generated",
         "programs are well formed: route/handler targets exist, one nested machine per state, a machine is nested at most once, "
-        "terminal states have no routes/handlers, events passed to run() are >= 1",
+        "a state 0 has no nested machine, events passed to run() are >= 1",
         "scripted guards/handlers are deterministic functions of their invocation count (cyclic scripts)"]
     ctx.uncovered = [
         "lastState() after stop()/before the first transition of a run, currentState() inside an exit action, and run()'s return "
